@@ -3,10 +3,10 @@ from vlib.core import *
 def run(tier):
     c = Check("C39", tier)
     q = tier == "quick"
-    params = {"G": 3, "maxWorkers": 2, "preempt": 1} if q else {"G": 3, "maxWorkers": 2, "preempt": 2}
+    params = {"G": 3, "maxWorkers": 2, "preempt": 0} if q else {"G": 3, "maxWorkers": 2, "preempt": 1}
     f = [os.path.join(VERIF, "harness/rpc/zz_verif_c39.go")]
     c.run_pkg(REPO, "./pkg/rpc", os.path.join(REPO, "pkg/rpc"), "rpc", f, "^VerifC39PoolStep$", params=params, max_models=8 if q else 30, wall="600s")
-    c.run_pkg(REPO, "./pkg/rpc", os.path.join(REPO, "pkg/rpc"), "rpc", f, "^VerifC39(Pool|Memory)$", params=params, max_models=0, wall="120s" if q else "3600s", soft_trunc="record", extra_flags=["-stub", "(*github.com/VKCOM/tl/pkg/rpc.Server).rareLog", "-stub", "github.com/VKCOM/tl/pkg/rpc.humanByteCountIEC"])
+    c.run_pkg(REPO, "./pkg/rpc", os.path.join(REPO, "pkg/rpc"), "rpc", f, "^VerifC39(Pool|Memory)$", params=params, max_models=0, wall="120s" if q else "3600s", soft_trunc="record", engine_only=True, extra_flags=["-stub", "(*github.com/VKCOM/tl/pkg/rpc.Server).rareLog", "-stub", "github.com/VKCOM/tl/pkg/rpc.humanByteCountIEC"])
     c.assumptions += ["REDUCED SCOPE: the admission data structures only (workerPool Get/Put/GC/Close, acquireRequestSema/releaseRequestBuf over semaphore.Weighted); the receive/send loops, sockets and the Go scheduler are outside",
                       "cooperative scheduler: interleavings at synchronisation operations, <= preempt involuntary switches per path; concurrent harnesses are engine-only",
                       "time.Now returns arbitrary non-decreasing instants", "logging is stubbed: (*Server).rareLog and humanByteCountIEC have empty bodies (rate-limited log lines, not part of admission)"]
